@@ -243,8 +243,8 @@ PROPS = {
                      "periodicInterruptedOne_complete", "indicator_complete", "eval_congr_term", "eval_congr_fml",
                      "C05_sound_core", "C05_feasible_iff", "envOf_schedOf_task", "envOf_schedOf_busy", "core_raw_sound",
                      "agree_own", "agree_own2", "envOf_indicator", "eval_congr2_term", "eval_congr2_fml", "reachable_wf",
-                     "InCoreS.of_reachable", "Exact_ex_inCoreS"],
-        "modules": ["Exact"],
+                     "InCoreS.of_reachable", "Exact_ex_inCoreS", "multi_extend", "C05_feasible_iff_multi", "Multi_ex_inCoreS"],
+        "modules": ["Exact", "Multi"],
         "profiles": [("all", 0.3), ("frag", 0.2), ("resc", 0.1), ("fol", 0.15), ("focus_resc", 0.15), ("focus_taskc", 0.1)],
         "relevant": lambda o: True,
         "spec": None,
@@ -292,8 +292,8 @@ PROPS = {
     },
     "C07": {
         "theorems": ["incLoop_spec", "C07_anytime", "C07_optimal", "incLoop_bound", "C07_bound_stop", "C07_weighted",
-                     "C07_weighted_goal", "C07_core_attainable", "C07_core_lower_bound"],
-        "modules": ["Exact"],
+                     "C07_weighted_goal", "C07_core_attainable", "C07_core_lower_bound", "C07_weighted_attainable"],
+        "modules": ["Exact", "Multi"],
         "profiles": [("obj", 1.0)],
         "relevant": lambda o: owner_in(o, ("objective", "indicator:")),
         "spec": None,
